@@ -100,6 +100,15 @@ func c13GenFormat(g *core.Gen, fmtName string, set int, files []string, content 
 				}
 			}
 		} else {
+			if g.Thorough() {
+				// thorough: truncation at EVERY byte offset and every 13th bit of the larger sets too
+				for at := 0; at < len(b); at++ {
+					emit(fileOp{Path: f, Op: "trunc", At: at})
+				}
+				for bitno := 0; bitno < 8*len(b); bitno += 13 {
+					emit(fileOp{Path: f, Op: "flip", At: bitno / 8, Bit: bitno % 8})
+				}
+			}
 			// every packet / field boundary +-1, every header bit, every 97th payload bit
 			bs := bounds(b)
 			isHdr := map[int]bool{}
